@@ -33,6 +33,11 @@ PROGRAMS = [
     ("field+stackops", "begin push.3 push.4 mul inv neg push.0 eq not push.1 and push.0 or push.9 push.8 push.1 cswap movup.2 movdn.3 swapw dup.4 eq.0 drop ext2mul exp.5 sdepth drop push.1 assert padw dropw end",
      [9, 8, 7, 6, 5, 4, 3, 2, 1]),
     ("deep-stack", "begin repeat.20 push.7 end repeat.20 drop end dupw swapdw movup.8 swapw.3 cswapw end", [1, 0, 1, 0, 5, 6, 7, 8, 9]),
+    ("calls", "proc.f push.1 drop end proc.g call.f push.2 drop end begin call.g call.f end", []),
+    ("multi-batch-span", "begin repeat.80 push.1 drop end end", []),
+    ("one-op-last-batch", "begin repeat.18 padw end drop repeat.72 drop end end", []),
+    ("no-halt-row-255-cycles", "begin push.1 while.true repeat.80 push.1 drop end push.0 end end", []),
+    ("mem-stream-first-read", "begin padw padw padw mem_stream dropw dropw dropw mem_load.77 drop end", []),
 ]
 
 
@@ -187,9 +192,12 @@ def native_traces(V, cov):
             V.add(f"native-trace:{pname}", "inconclusive", detail=str(r)[:200])
             continue
         cov["native_rows"] += r["rows"]
-        if r["nonzero"] or r["bad_assertions"] or r.get("bad_aux_assertions"):
+        fin = r.get("aux_final") or []
+        # virtual tables and the chiplets bus must be back at 1 at the end of the trace (when a HALT row exists)
+        open_tables = [i for i in (0, 1, 2, 5, 6) if i < len(fin) and fin[i] != "1"] if pname != "no-halt-row-255-cycles" else []
+        if r["nonzero"] or r["bad_assertions"] or r.get("bad_aux_assertions") or open_tables:
             path = save_replay(PROP, f"trace_{pname}", dict(kind="trace_check", source=src, stack=st, result=r))
-            V.violation(f"native-trace:{pname}", path, f"real trace of `{pname}` violates the AIR: {r['nonzero'][:3]} bad assertions {r['bad_assertions']}, bad aux assertions {r.get('bad_aux_assertions')}",
+            V.violation(f"native-trace:{pname}", path, f"real trace of `{pname}` violates the AIR: {r['nonzero'][:3]} bad assertions {r['bad_assertions']}, bad aux assertions {r.get('bad_aux_assertions')}, virtual-table / bus columns not back at 1: {open_tables}",
                         key=f"trace:{pname}")
         else:
             V.add(f"native-trace:{pname}", "discharged", detail=f"{r['rows']} rows x {r['constraints']} constraints all zero; boundary assertions hold")
